@@ -48,30 +48,34 @@ def frame_of(p: str) -> bytes:
     if p == "bad":
         return simnet.plain_raw(25, b"\xff\xff\xff")
     if p == "garbage":
-        return b"\x07\x07"
+        return b"\x07\x07\x07"
     raise ValueError(p)
 
 
 class Bench:
-    def __init__(self, login=False, keepalive=20.0):
-        self.net = simnet.Net()
+    def __init__(self, login=False, keepalive=20.0, noise=False):
+        self.net = simnet.Net(base=5000.0)
+        self.noise = noise
         self.loop = self.net.loop
         self.login = login
         params = ConnectionParams(addresses=["10.0.0.1"], port=6053, password="pw" if login else None,
                                   client_info="verif", keepalive=keepalive, zeroconf_manager=ZeroconfManager(),
-                                  noise_psk=None, expected_name=EXPECTED)
+                                  noise_psk=("QRTIErOb/fcE9Ukd/5qA3RGYMn0Y+p06U58SCtOXvPc=" if noise else None),
+                                  expected_name=EXPECTED)
         self.stops = []
         self.conn = APIConnection(params, lambda e: self.stops.append(e), False, None)
         self.deliv = 0
         self.conn.add_message_callback(self._on_state, (pb.SensorStateResponse,))
         self.tasks = {}
-        self.lines, self.obs = [f"cn.reset 0 {1 if login else 0}"], ["ok"]
+        self.lines, self.obs = [f"cn.reset {1 if noise else 0} {1 if login else 0}"], ["ok"]
         self.fut_kind = {}     # id(future) -> "hs" | "hello" | "discresp"
         self.tmo_kind = {}     # id(Timeout) -> "resolve" | "tcp"
         self.steps = []        # (label, model event) for evidence/debugging
         self.raw_escapes = []
         self.refused = 0
         self.extra_accepted = []
+        self.t_start, self.t_done = {}, {}
+        self.user_cancelled = set()
 
     def _on_state(self, msg):
         self.deliv += 1
@@ -156,11 +160,15 @@ class Bench:
                 f"start={self._outcome('start')} finish={self._outcome('finish')} disc={self._outcome('disc')} refused={self.refused}")
 
     def emit(self, ev):
+        for n, t in self.tasks.items():
+            if t.done() and n not in self.t_done:
+                self.t_done[n] = self.loop.time()
         self.lines.append("cn.ev " + ev if ev != "nop" else "cn.nop")
         self.obs.append(self.observe())
 
     # ------------------------------------------------------------------ operations
     def spawn(self, name, coro):
+        self.t_start[name] = self.loop.time()
         self.tasks[name] = tasks._PyTask(coro, loop=self.loop, name=name, eager_start=True)
 
     def phase_call(self, name, coro, ev):
@@ -177,6 +185,7 @@ class Bench:
         if nt.done() and not nt.cancelled() and isinstance(nt.exception(), RuntimeError):
             self.refused += 1
         elif t is None:
+            self.t_start[name] = self.loop.time()
             self.tasks[name] = nt
         else:
             self.extra_accepted.append((name, nt))   # a second attempt was ACCEPTED on a used object
@@ -273,6 +282,7 @@ class Bench:
             if t is None or t.done():
                 return
             t.cancel()
+            self.user_cancelled.add(op[1])
             self.emit({"start": "cancelStart", "finish": "cancelFinish", "disc": "cancelDisc"}[op[1]])
         elif k == "data":
             chunk = b"".join(frame_of(p) for p in op[1])
@@ -321,7 +331,14 @@ class Bench:
                     cand.append(h)
             if not cand:
                 return
-            loop._vt = max(loop._vt, min(h._when for h in cand))
+            # time is urgent: never jump over an earlier deadline — go to the earliest armed timer (of any kind) that is
+            # not later than the wanted one; the ready queue must be empty first (asyncio sleeps only when idle)
+            while self.do_step():
+                pass
+            nt = loop.next_timer()
+            if nt is None:
+                return
+            loop._vt = max(loop._vt, min(nt, min(h._when for h in cand)))
             loop.fire_due()
             self.emit("nop")
 
@@ -340,8 +357,8 @@ class Bench:
         self.net.close()
 
 
-def run_scenario(ops, login=False, drain=True, keepalive=20.0):
-    b = Bench(login=login, keepalive=keepalive)
+def run_scenario(ops, login=False, drain=True, keepalive=20.0, noise=False):
+    b = Bench(login=login, keepalive=keepalive, noise=noise)
     if getattr(b, "_fail_next", False):
         pass
     for op in ops:
